@@ -4,5 +4,10 @@ ROWS = {
   "exhaustive enumeration of every enum domain + property-based testing (rapid) against documented-name tables and a pinned snapshot",
   "Every value of every exported enum/identifier stringer is enumerated over its whole (8/16-bit, signed from minimum) domain, tag.ID x IfdType through TagName, CameraModel over the make ranges; oracles: returns without panic, documented value => documented name (tables written in the check), whole relation equals a pinned snapshot with the documented fallback for non-members, parse round trips for image types and XMP namespaces. The enumerated part is exhaustive for the domains listed in the evidence.",
   "Trusted: the documented-name tables in props/c17/tables.go (transcribed from doc comments / ExifTool / TIFF / Exif) and testdata/golden.json (regression snapshot). Unexported stringers are out of scope here."),
+
+ "C12": ("exploration",
+  "exhaustive enumeration over the signature alphabet + property-based testing (rapid) against a naive reference scan",
+  "Every prefix over {I,M,*,0x00,x} up to length 7 (quick) / 10 (thorough) in front of four header variants is enumerated; random long prefixes around the 32/64/4096/8192-byte buffer boundaries, sprinkled partial signatures, signature-free streams and signatures near the end of the stream through eight reader kinds; oracle: first index found by a naive scan, byte order and first-IFD offset read there, caller's bufio.Reader left at the header, ErrNoExif without a signature.",
+  "Trusted: the 20-line reference scan. Streams whose only signature has fewer than 28 following bytes are outside the precondition and not asserted."),
 }
 NOT_APPLICABLE = {}
